@@ -150,7 +150,9 @@ ASSUMPTIONS = [
     "predict on rows whose maximum is unique, and column j == inner column of the code of classes_[j]",
     "'label-permutation-equivariant learners': DecisionTreeClassifier (exact agreement on rows without leaf ties) and "
     "LogisticRegression with tol=1e-10 (strictly convex objective, agreement within 1e-4)",
-    "a callable fct / fct_inv pair given by the user is outside 'predefined function name'",
+    "a callable fct / fct_inv pair given by the user is outside 'predefined function name' for the TABLE theorems; the "
+    "search still runs the round trip and TransformedTargetRegressor2 on two such pairs and on what get_fct_inv returns "
+    "for them (check_user_pair)",
 ]
 RULE = ("table: every entry of available_fcts() (name, chain evaluated bit-exactly against the real callable on a grid, "
         "inverse name, get_fct_inv() result, regressor train/predict chains); permutations: label kind (int/float+NaN/str)"
@@ -889,6 +891,64 @@ def check_clf(kind, which, X, ys, seed, Xq):
     return bad, out
 
 
+def _pair_affine():
+    return (lambda a: 2.0 * a + 1.0), (lambda a: (a - 1.0) / 2.0)
+
+
+def _pair_cube():
+    import numpy
+    return (lambda a: numpy.asarray(a, dtype=float) ** 3), (lambda a: numpy.cbrt(numpy.asarray(a, dtype=float)))
+
+
+def check_user_pair(seed):
+    """A reciprocal transformer built by the CALLER (a pair of callables), and the ones `get_fct_inv` returns for it at
+    the first and second level: each of them followed by ITS `get_fct_inv()` gives the targets back, and
+    TransformedTargetRegressor2 given any of them predicts the inverse function of what its regressor predicts."""
+    import random
+    import numpy
+    from sklearn.linear_model import LinearRegression
+    from mlinsights.mlmodel.sklearn_transform_inv_fct import FunctionReciprocalTransformer as FRT
+    from mlinsights.mlmodel.target_predictors import TransformedTargetRegressor2 as TTR2
+    rng = random.Random(seed)
+    f, g = (_pair_affine, _pair_cube)[seed % 2]()
+    pair = ("affine", "cube")[seed % 2]
+    n = rng.randint(8, 20)
+    X = numpy.array([[rng.uniform(0.5, 3.0), rng.uniform(0.5, 3.0)] for _ in range(n)])
+    y = 0.5 + X[:, 0] + 0.25 * X[:, 1]
+    bad = []
+    try:
+        t0 = FRT(f, g).fit()
+        t1 = t0.get_fct_inv().fit()
+        t2 = t1.get_fct_inv().fit()
+    except Exception as e:  # noqa: BLE001
+        return [("FunctionReciprocalTransformer[callables]:get_fct_inv-raises", "get_fct_inv raises for a pair of callables",
+                 "%s: %s" % (type(e).__name__, str(e)[:120]), "the reverse transformer")]
+    for level, (t, fwd, inv) in enumerate(((t0, f, g), (t1, g, f), (t2, f, g))):
+        tag = "FunctionReciprocalTransformer[callables,level %d]" % level
+        try:
+            _, mid = t.transform(X, y)
+            _, back = t.get_fct_inv().transform(X, mid)
+            if not numpy.allclose(mid, fwd(y), rtol=1e-12, atol=1e-12):
+                bad.append((tag + ":applies-another-function", "the transformer does not apply the function it was given (%s "
+                            "pair)" % pair, numpy.asarray(mid)[:4].tolist(), numpy.asarray(fwd(y))[:4].tolist()))
+            elif not numpy.allclose(back, y, rtol=1e-9, atol=1e-9):
+                bad.append((tag + ":roundtrip", "transform followed by get_fct_inv().transform does not give the targets back "
+                            "(%s pair; level 0 = the caller's transformer, level k = get_fct_inv applied k times)" % pair,
+                            numpy.asarray(back)[:4].tolist(), y[:4].tolist()))
+            m = TTR2(LinearRegression(), transformer=t).fit(X, y)
+            inner = m.regressor_.predict(X)
+            got = numpy.asarray(m.predict(X)).ravel()
+            want = numpy.asarray(inv(inner)).ravel()
+            if not numpy.allclose(got, want, rtol=1e-9, atol=1e-9):
+                bad.append(("TransformedTargetRegressor2[callables,level %d]:not-inverse-of-inner-prediction" % level,
+                            "predict is not the inverse function of what the regressor trained on the transformed target "
+                            "predicts (%s pair)" % pair, got[:4].tolist(), want[:4].tolist()))
+        except Exception as e:  # noqa: BLE001
+            bad.append((tag + ":raises", "transform / get_fct_inv / TransformedTargetRegressor2 raises for a pair of callables",
+                        "%s: %s" % (type(e).__name__, str(e)[:120]), "the targets back"))
+    return bad
+
+
 def check_shared_transformer(seed):
     """fit model A with transformer object T, then model B with the SAME object on other labels: A must still
     predict its own original labels (and B its own) -- each model works on its own fitted copy of T."""
@@ -1153,6 +1213,11 @@ def search(ctx, hints):
         evals += 1
         nontriv.add(("shared-transformer", s1))
         report(bad, {"kind": "shared", "seed": s1})
+    for t in range(ctx.pick(4, 20)):
+        s1 = rng.randrange(1 << 20)
+        evals += 1
+        nontriv.add(("user-pair", s1))
+        report(check_user_pair(s1), {"kind": "user-pair", "seed": s1})
     # (e) refit histories of one transformer object, and float targets of every width
     for t in range(ctx.pick(8, 60)):
         s1 = rng.randrange(1 << 20)
@@ -1196,6 +1261,8 @@ def replay(ctx, item):
         bad = check_shared_transformer(inp["seed"])
     elif kind == "perm-history":
         bad = check_perm_history(inp["seed"])
+    elif kind == "user-pair":
+        bad = check_user_pair(inp["seed"])
     elif kind == "failed-refit":
         bad = check_failed_refit(inp["seed"])
     else:
